@@ -258,6 +258,31 @@ CATALOGUE = [
 ]
 
 
+_ZN = None
+
+
+def _zone_names():
+    """zone names below the zoneinfo directory and the pairs (a, b) with a a proper prefix of b"""
+    global _ZN
+    if _ZN is None:
+        import os
+        top = "/usr/share/zoneinfo"
+        names = []
+        for root, dirs, files in os.walk(top):
+            dirs[:] = sorted(d for d in dirs if d not in ("posix", "right"))
+            for f in sorted(files):
+                p = os.path.join(root, f)
+                try:
+                    with open(p, "rb") as fh:
+                        if fh.read(4) == b"TZif":
+                            names.append(os.path.relpath(p, top))
+                except OSError:
+                    pass
+        fams = [(a, b) for a in names for b in names if a != b and b.startswith(a)]
+        _ZN = (names, fams)
+    return _ZN
+
+
 def tools(ctx, shard, nshards):
     sub = Sub("c13.tools")
     V = Viol(sub, "C13")
@@ -300,9 +325,16 @@ def tools(ctx, shard, nshards):
         if it < 3 and shard == 0:
             sub.sample({"cmd": tool + " " + " ".join(pre), "mode": mode, "inputs": items[:5]})
     # dzone matrix: rows are independent
-    for it in range(6 if not ctx.thorough else 100):
+    names, fams = _zone_names()
+    for it in range(40 if not ctx.thorough else 400):
         zs = rnd.sample(["Europe/Berlin", "America/New_York", "Asia/Tokyo", "Australia/Sydney", "Asia/Gaza",
-                         "Pacific/Apia", "UTC", "Asia/Kolkata"], rnd.randrange(1, 4))
+                         "Pacific/Apia", "UTC", "Asia/Kolkata"] + rnd.sample(names, 8), rnd.randrange(1, 4))
+        if fams and rnd.random() < 0.5:
+            # a zone whose name is a proper prefix of another zone's name, in either order
+            pair = list(rnd.choice(fams))
+            rnd.shuffle(pair)
+            zs = (pair + zs)[:rnd.randrange(2, 5)]
+            sub.cls("dzone matrix with prefix-related zone names")
         ts = []
         for _ in range(rnd.randrange(2, 8)):
             n = rnd.randrange(R.n_of(1900, 1, 1), R.n_of(2100, 1, 1))
